@@ -33,7 +33,9 @@ struct CbOut {
 
 fn run_body<'r, 'gc>(cb: &mut Cb<'r, 'gc>, body: &[MOp], traverse: bool) -> Result<CbOut, PanicNow> {
     let mut out = CbOut::default();
-    if traverse {
+    // bulk-allocation bodies (pacing workloads) do not need pointers to existing objects
+    let bulk = !body.is_empty() && body.iter().all(|m| matches!(m, MOp::Burst { .. } | MOp::Chain { .. } | MOp::SetS { p: Ref::Root, c: None, .. }));
+    if traverse && !bulk {
         cb.take_snapshot();
         out.traversed_ok = cb.traverse();
         if !out.traversed_ok {
@@ -127,6 +129,8 @@ impl Exec {
             }
             let _ = body_has_mutation;
         }
+        let ph_after = self.phase(a);
+        self.pace_callback(a, allocs, ph_after);
         self.check_metrics(a, what);
         self.check_frame(a, pre.frame, what);
         self.record_observation(a);
